@@ -1,9 +1,10 @@
 use super::{ksp_query::KspQuery, ksp_termination_criteria::KspTerminationCriteria};
 use crate::{
     algorithm::search::{
-        edge_traversal::EdgeTraversal, search_algorithm::SearchAlgorithm,
-        search_algorithm_result::SearchAlgorithmResult, search_error::SearchError,
-        search_instance::SearchInstance, util::edge_cut_frontier_model::EdgeCutFrontierModel,
+        a_star::bidirectional_ops, edge_traversal::EdgeTraversal,
+        search_algorithm::SearchAlgorithm, search_algorithm_result::SearchAlgorithmResult,
+        search_error::SearchError, search_instance::SearchInstance,
+        util::edge_cut_frontier_model::EdgeCutFrontierModel,
         util::route_similarity_function::RouteSimilarityFunction,
     },
     model::{network::edge_id::EdgeId, unit::Cost},
@@ -117,11 +118,19 @@ pub fn run(
             };
 
             let spur_path = get_first_route(&spur_result)?;
-            let candidate_path = root_path
-                .into_iter()
-                .chain(spur_path)
-                .cloned()
-                .collect_vec();
+            // the spur search started at the spur vertex from the initial state and without a
+            // previous edge: re-create the spur part from the last edge and state of the root
+            // path, so that state and costs accumulate along the whole candidate
+            // (reorient_reverse_route takes its second argument in reverse travel order)
+            let root_route = root_path.into_iter().cloned().collect_vec();
+            let spur_backward = spur_path.iter().rev().cloned().collect_vec();
+            let spur_route =
+                match bidirectional_ops::reorient_reverse_route(&root_route, &spur_backward, si) {
+                    Ok(spur_route) => spur_route,
+                    // the spur path cannot be traversed after the root path: no candidate
+                    Err(_) => continue,
+                };
+            let candidate_path = root_route.into_iter().chain(spur_route).collect_vec();
             let candidate_test_path: &Vec<&EdgeTraversal> = &candidate_path.iter().collect_vec();
             // replace best candidate if current candidate is sufficiently dissimilar to every
             // accepted path and improves on cost
